@@ -49,6 +49,8 @@ type Job struct {
 	Seed     map[string]hx.B `json:"seed,omitempty"`
 	Out      string          `json:"out"`
 	Ready    string          `json:"ready,omitempty"` // touched right before server.New (kill timing)
+	Wiring   *Wiring         `json:"wiring,omitempty"`
+	Hold     bool            `json:"hold,omitempty"` // stay alive (holding the store) after the observation is written
 }
 
 // ItemObs describes one persisted kv item after the start.
@@ -60,16 +62,39 @@ type ItemObs struct {
 	Pub     hx.B `json:"pub,omitempty"` // digest of the public projection of the stored value
 }
 
+// Wiring: capture channels and [[filter]] sections of a start's configuration.
+type Wiring struct {
+	Channels []string `json:"channels"`
+	Filters  []Flt    `json:"filters"`
+}
+type Flt struct {
+	Channels   []string `json:"channel"`
+	Categories []string `json:"categories,omitempty"`
+}
+
+// Arrival: an event as it arrived on a capture channel (token field read at that moment:
+// the event object is shared between subscribers and wrappers write into it).
+type Arrival struct {
+	Chan  string `json:"chan"`
+	Cat   string `json:"-"`
+	Has   bool   `json:"has_token"`
+	Token hx.B   `json:"token"`
+}
+
+var probeCats = []string{"catA", "catB", "catC", "catD"}
+
 type ChildObs struct {
-	Started   bool               `json:"started"`
-	NewErr    string             `json:"new_err,omitempty"`
-	Token     hx.B               `json:"token"` // "token" field of an event delivered to a configured channel
-	TokenSeen int                `json:"token_values_seen"`
-	TokenFile *hx.B              `json:"token_file"` // nil: absent
-	TmpFiles  map[string]hx.B    `json:"tmp_files,omitempty"`
-	KV        map[string]ItemObs `json:"kv"`
-	Seen      map[string]hx.B    `json:"seen"` // identity PRESENTED to a client, per configured service instance (digest)
-	Errs      []string           `json:"errs,omitempty"`
+	Failed    bool                 `json:"failed,omitempty"`     // filled in by the parent: the process ended without completing the start
+	Deliv     map[string][]Arrival `json:"deliveries,omitempty"` // probe event category -> arrivals on the generated channels, in order
+	Started   bool                 `json:"started"`
+	NewErr    string               `json:"new_err,omitempty"`
+	Token     hx.B                 `json:"token"` // "token" field of an event delivered to a configured channel
+	TokenSeen int                  `json:"token_values_seen"`
+	TokenFile *hx.B                `json:"token_file"` // nil: absent
+	TmpFiles  map[string]hx.B      `json:"tmp_files,omitempty"`
+	KV        map[string]ItemObs   `json:"kv"`
+	Seen      map[string]hx.B      `json:"seen"` // identity PRESENTED to a client, per configured service instance (digest)
+	Errs      []string             `json:"errs,omitempty"`
 }
 
 var kvItems = []struct{ Name, NS, Key string }{
@@ -99,16 +124,21 @@ func (l *recL) Start(ctx context.Context) error {
 func (l *recL) Accept() (net.Conn, error) { return <-l.accept, nil }
 
 type capC struct {
-	mu  sync.Mutex
-	evs []event.Event
+	Name string `toml:"name"`
 }
 
-func (c *capC) Send(e event.Event) { c.mu.Lock(); c.evs = append(c.evs, e); c.mu.Unlock() }
-
 var (
-	theL   = &recL{accept: make(chan net.Conn), started: make(chan struct{})}
-	theCap = &capC{}
+	capMu    sync.Mutex
+	arrivals []Arrival
 )
+
+func (c *capC) Send(e event.Event) {
+	capMu.Lock()
+	arrivals = append(arrivals, Arrival{Chan: c.Name, Cat: e.Get("category"), Has: e.Has("token"), Token: hx.B(e.Get("token"))})
+	capMu.Unlock()
+}
+
+var theL = &recL{accept: make(chan net.Conn), started: make(chan struct{})}
 
 func init() {
 	listener.Register("c18-rec", func(opts ...func(listener.Listener) error) (listener.Listener, error) {
@@ -118,7 +148,11 @@ func init() {
 		return theL, nil
 	})
 	pushers.Register("c18-cap", func(opts ...func(pushers.Channel) error) (pushers.Channel, error) {
-		return theCap, nil
+		c := &capC{}
+		for _, o := range opts {
+			o(c)
+		}
+		return c, nil
 	})
 }
 
@@ -138,9 +172,33 @@ var svcDefs = map[string]struct {
 	"ldap": {"ldap", 389, "ldap", false}, "ldap2": {"ldap", 3389, "ldap", false},
 }
 
-func childToml(svcs []string, opKey string) string {
+func tomlStrs(xs []string) string {
+	var q []string
+	for _, x := range xs {
+		q = append(q, fmt.Sprintf("%q", x))
+	}
+	return "[" + strings.Join(q, ",") + "]"
+}
+
+// childToml: the generated channels and filters first, in order; then the catch-all
+// channel "all" behind ONE filter without restrictions, as the LAST subscription (so that
+// the token it writes into the shared event object cannot mask an earlier arrival).
+func childToml(svcs []string, opKey string, w *Wiring) string {
 	var sb strings.Builder
-	sb.WriteString("[listener]\ntype=\"c18-rec\"\n\n[channel.cap]\ntype=\"c18-cap\"\n\n[[filter]]\nchannel=[\"cap\"]\n\n")
+	sb.WriteString("[listener]\ntype=\"c18-rec\"\n\n")
+	if w != nil {
+		for _, c := range w.Channels {
+			fmt.Fprintf(&sb, "[channel.%s]\ntype=\"c18-cap\"\nname=%q\n\n", c, c)
+		}
+		for _, f := range w.Filters {
+			fmt.Fprintf(&sb, "[[filter]]\nchannel=%s\n", tomlStrs(f.Channels))
+			if len(f.Categories) > 0 {
+				fmt.Fprintf(&sb, "categories=%s\n", tomlStrs(f.Categories))
+			}
+			sb.WriteString("\n")
+		}
+	}
+	sb.WriteString("[channel.all]\ntype=\"c18-cap\"\nname=\"all\"\n\n[[filter]]\nchannel=[\"all\"]\n\n")
 	for _, s := range svcs {
 		d, ok := svcDefs[s]
 		if !ok {
@@ -492,7 +550,7 @@ func childMain(jobPath string) {
 	// ---- one start ----
 	config.Default = config.Config{}
 	tp := jobPath + ".toml"
-	if err := os.WriteFile(tp, []byte(childToml(job.Services, job.OpKey)), 0o644); err != nil {
+	if err := os.WriteFile(tp, []byte(childToml(job.Services, job.OpKey, job.Wiring)), 0o644); err != nil {
 		os.Exit(4)
 	}
 	optC, err := server.WithConfig(tp)
@@ -558,38 +616,48 @@ func childMain(jobPath string) {
 		v, err := probeAgent()
 		note("agent", v, err)
 	}
-	// the token as stamped on an event that reaches a configured channel
-	theL.bus.Send(event.New(event.Sensor("c18"), event.Category("c18-probe")))
-	deadline := time.Now().Add(5 * time.Second)
-	for time.Now().Before(deadline) {
-		theCap.mu.Lock()
-		n := len(theCap.evs)
-		theCap.mu.Unlock()
-		if n > 0 {
-			break
-		}
-		time.Sleep(5 * time.Millisecond)
+	// probe events sent on the bus the listener was given (EventBus.Send is synchronous):
+	// one per probe category, then the one whose arrival on "all" gives the token in use
+	for _, cat := range probeCats {
+		theL.bus.Send(event.New(event.Sensor("c18"), event.Category(cat)))
 	}
+	theL.bus.Send(event.New(event.Sensor("c18"), event.Category("c18-probe")))
 	time.Sleep(20 * time.Millisecond)
-	theCap.mu.Lock()
+	capMu.Lock()
 	vals := map[string]bool{}
-	for _, e := range theCap.evs {
-		if !e.Has("token") {
-			vals["<none>"] = true
+	gotProbe := false
+	ob.Deliv = map[string][]Arrival{}
+	for _, cat := range probeCats {
+		ob.Deliv[cat] = []Arrival{}
+	}
+	for _, a := range arrivals {
+		if a.Chan == "all" {
+			if !a.Has {
+				vals["<none>"] = true
+			} else {
+				vals[string(a.Token)] = true
+			}
+			if a.Cat == "c18-probe" {
+				ob.Token, gotProbe = a.Token, true
+			}
 			continue
 		}
-		vals[e.Get("token")] = true
-		if e.Get("category") == "c18-probe" {
-			ob.Token = hx.B(e.Get("token"))
+		if _, ok := ob.Deliv[a.Cat]; ok {
+			ob.Deliv[a.Cat] = append(ob.Deliv[a.Cat], a)
 		}
 	}
-	if len(theCap.evs) == 0 {
-		ob.Errs = append(ob.Errs, "no event reached the capture channel")
+	capMu.Unlock()
+	if !gotProbe {
+		ob.Errs = append(ob.Errs, "the probe event did not reach the catch-all channel")
 	}
-	theCap.mu.Unlock()
 	ob.TokenSeen = len(vals)
 	ob.KV = dumpKV()
 	dumpFiles(ob, job.DataDir)
 	writeObs(job, ob)
+	if job.Hold {
+		for { // keeps the store open until the parent kills the process
+			time.Sleep(time.Hour)
+		}
+	}
 	os.Exit(0)
 }
